@@ -81,6 +81,7 @@ def check_case(case):
     try:
         _check_grid(dom, nx, ny, nz, dim, ndof, [ux, uy, uz], bad)
         _check_shape(dom, dim, [ux, uy, uz], case["pts"], bad)
+        _check_no_alias(pym.DomainDefinition(nx, ny, nz, unitx=ux, unity=uy, unitz=uz), ndof, bad)
         if case.get("renumber") is not None:
             labels.append("custom_node_numbering")
             _check_custom_numbering(pym, case, dim, bad)
@@ -197,6 +198,41 @@ def _check_grid(dom, nx, ny, nz, dim, ndof, unit, bad):
             want[:, l * ndof + d] = conn[:, l] * ndof + d
     if dc.shape != want.shape or not np.array_equal(dc, want):
         bad("dofconnectivity", f"ndof={ndof}: differs from conn*ndof+d expansion")
+
+
+def _check_no_alias(dom, ndof, bad):
+    """Tables handed out by the query methods belong to the caller: renumbering one in place (e.g. `dc += offset` for a
+    second physical field) must not change what the domain answers afterwards, nor its conn/elements/nodes tables."""
+    nzz = max(dom.nelz, 1)
+    I, J, K = np.meshgrid(np.arange(dom.nelx), np.arange(dom.nely), np.arange(nzz), indexing="ij")
+    queries = {
+        "get_dofconnectivity(1)": lambda: dom.get_dofconnectivity(1),
+        f"get_dofconnectivity({ndof})": lambda: dom.get_dofconnectivity(ndof),
+        "get_elemconnectivity(arrays)": lambda: dom.get_elemconnectivity(I, J, K),
+        "get_node_indices()": lambda: dom.get_node_indices(),
+        "get_node_position()": lambda: dom.get_node_position(),
+        "get_elemnumber(arrays)": lambda: dom.get_elemnumber(I, J, K),
+    }
+    tables = {"conn": np.array(dom.conn, copy=True), "elements": np.array(dom.elements, copy=True),
+              "nodes": np.array(dom.nodes, copy=True)}
+    for name, q in queries.items():
+        r = q()
+        if not isinstance(r, np.ndarray) or r.size == 0:
+            continue
+        before = np.array(r, copy=True)
+        try:
+            r += 7 * (dom.nnodes + 3)
+        except (ValueError, TypeError):   # read-only or non-numeric result: nothing can be corrupted through it
+            continue
+        again = np.asarray(q())
+        if again.shape != before.shape or not np.array_equal(again, before):
+            bad("alias:query_result", f"after modifying the array returned by {name} in place, the same query returns "
+                                      f"different values")
+            return
+        for tn, tv in tables.items():
+            if not np.array_equal(np.asarray(getattr(dom, tn)), tv):
+                bad("alias:internal_table", f"modifying the array returned by {name} in place changed domain.{tn}")
+                return
 
 
 def _check_custom_numbering(pym, case, dim, bad):
